@@ -144,6 +144,61 @@ def showSign (r : ApiRes SignOut × List RngCall) : String :=
 
 def signFuel : Nat := 2000
 
+/-- search aid for the corpora (not part of the model): the intermediate vectors of one signing attempt, flattened:
+    `z` centred, `r = w - c s2 mod q`, `c t0` centred, `rr = w - c s2 + c t0 mod q` -/
+def attemptProbe (m : Mode) (O : Oracles) (ctest : Bool) (p : ParamSet) (sk : PrivateKey) (aHat : List (List Poly))
+    (mu rhoPP : List Nat) (kappa : Int) : M (List Int × List Int × List Int × List Int) := do
+  let y ← expandMask m O p rhoPP kappa
+  let w ← invNtt m (← matVecMul m aHat (← ntt m y))
+  let w1 ← w.mapM (fun q => q.mapM (high_bits m p.gamma2))
+  let w1t ← w1Encode m p w1 p.w1Len
+  let cTilde := O.h (mu ++ w1t) p.lambdaDiv4
+  let c ← sampleInBall m O ctest p.tau cTilde
+  let chats ← ntt m [c]
+  let chat ← idx "probe" chats 0
+  let cs1 ← mulInv m "probe" chat sk.s1
+  let cs2 ← mulInv m "probe" chat sk.s2
+  let ct0 ← mulInv m "probe" chat sk.t0
+  let z := (List.zipWith (fun a b => List.zipWith (fun x y => modpm Q (x + y)) a b) y cs1).flatten
+  let r := (List.zipWith (fun a b => List.zipWith (fun x y => (x - y) % Q) a b) w cs2).flatten
+  let c0 := ct0.flatten.map (fun x => modpm Q x)
+  let rr := List.zipWith (fun x y => (x + y) % Q) r c0
+  pure (z, r, c0, rr)
+
+/-- the single pass of `dudect_keygen_sign_with_rng` (key generation and signing in CTEST mode) summarised, so that RNG outputs which
+    put a secret coefficient on a rare value (a Decompose corner, an exact zero, a norm at a rejection bound) can be found and kept -/
+def ctProbe (m : Mode) (O : Oracles) (p : ParamSet) (msg xi rnd : List Nat) : M String := do
+  let (_, sk) ← keyGenInternal m O true p xi
+  let aHat ← expandA m O true p sk.rho
+  let mu := muOf O domPure_sign domHash_sign sk.tr msg [1] [2] [3] true
+  let rhoPP := O.h (sk.key ++ rnd ++ mu) 64
+  let (z, r, c0, rr) ← attemptProbe m O true p sk aHat mu rhoPP 0
+  let g2 := p.gamma2
+  let r0 := r.map (fun x => modpm (2 * g2) x)
+  let mx := fun (l : List Int) => l.foldl (fun a b => if a < absI b then absI b else a) 0
+  let cnt := fun (l : List Int) (f : Int → Bool) => (l.filter f).length
+  let hsum := cnt (List.zipWith (fun a b => if (decide ((a - modpm (2 * g2) a) / (2 * g2) ≠ (b - modpm (2 * g2) b) / (2 * g2))) then (1 : Int) else 0) r rr) (fun x => x == 1)
+  pure s!"znorm={mx z} zedge={cnt z (fun x => absI x == p.gamma1 - p.beta || absI x == p.gamma1 - p.beta - 1)} r0norm={mx r0} rcorner={cnt r (fun x => x == Q - g2)} r0edge={cnt r0 (fun x => x == g2)} r0betaedge={cnt r0 (fun x => absI x == g2 - p.beta || absI x == g2 - p.beta - 1)} ct0norm={mx c0} ct0zero={cnt c0 (fun x => x == 0)} ct0edge={cnt c0 (fun x => absI x == g2 || absI x == g2 - 1)} rrcorner={cnt rr (fun x => x == Q - g2)} rzero={cnt r (fun x => x == 0)} zzero={cnt z (fun x => x == 0)} hdiff={hsum}"
+
+/-- the accepted attempt of an ordinary signature summarised: which Decompose bucket edges `(2k+1) gamma2` (and the corner `q - gamma2`)
+    the vectors `w - c s2` and `w - c s2 + c t0` touch -/
+def signProbe (m : Mode) (O : Oracles) (p : ParamSet) (sk : PrivateKey) (msg ctx rnd : List Nat) : M String := do
+  let aHat ← expandA m O false p sk.rho
+  let mu := muOf O domPure_sign domHash_sign sk.tr msg ctx [] [] false
+  let rhoPP := O.h (sk.key ++ rnd ++ mu) 64
+  let rec find : Nat → Int → M Int
+    | 0, k => pure k
+    | fuel + 1, k => do
+      match ← signAttempt m O false p sk aHat mu rhoPP k with
+      | some _ => pure k
+      | none => find fuel (k + Int.ofNat p.l)
+  let kappa ← find 400 0
+  let (_, r, _, rr) ← attemptProbe m O false p sk aHat mu rhoPP kappa
+  let g2 := p.gamma2
+  let edges := fun (l : List Int) => (l.filter (fun x => x % (2 * g2) == g2)).map (fun x => (x - g2) / (2 * g2))
+  let sh := fun (l : List Int) => ",".intercalate (l.map toString)
+  pure s!"kappa={kappa} redges=[{sh (edges r)}] rredges=[{sh (edges rr)}]"
+
 /-- per-parameter-set operations -/
 def setOp (m : Mode) (O : Oracles) (op : String) (p : ParamSet) (a : Array String) : M String :=
   let arg := fun (i : Nat) => a[i]!
@@ -179,6 +234,13 @@ def setOp (m : Mode) (O : Oracles) (op : String) (p : ParamSet) (a : Array Strin
           else if arg 0 == "internal" then internalVerify m O p pk msg sig ctx
           else hashVerify m O p pk msg sig ctx (phOf (arg 0))
         pure (toString r)
+  | "sign_probe" => do
+      match ← skSrc m O p (arg 0) with
+      | none => pure "err"
+      | some sk => signProbe m O p sk (parseHex (arg 1)) (parseHex (arg 2)) (parseHex (arg 3))
+  | "ct_probe" => do
+      let r := parseHex (arg 1)
+      ctProbe m O p (parseHex (arg 0)) (r.take 32) (r.drop 32)
   | "dudect" => do pure (showSign (← dudectKeygenSign m O p signFuel (parseHex (arg 0)) (parseScript (arg 1))))
   | "sk_from" => do match ← skSrc m O p (arg 0) with | some sk => pure s!"ok {skDump sk}" | none => pure "err"
   | "pk_from" => do match ← pkSrc m O p (arg 0) with | some pk => pure s!"ok {pkDump pk}" | none => pure "err"
